@@ -216,7 +216,7 @@ func c15R1(c *Ctx, r *Report) {
 
 func c15R2(c *Ctx, r *Report) {
 	const rule = "C15.R2"
-	r.Describe(rule, "every AddDependency call site turns a non-nil error into an Error diagnostic")
+	r.Describe(rule, "every AddDependency call site turns a non-nil error into an Error diagnostic — directly, or by recording the import (same importer/imported arguments) for a replay function that Run calls after wg.Wait(), that tests each recorded import for a cycle and reports it, and whose positive result makes Run return an error")
 	add := c.LookupFn(pkgCtx, "(*CompilerContext).AddDependency")
 	report := c.LookupFn(pkgCtx, "(*CompilerContext).ReportError")
 	bagAdd := c.LookupFn("internal/diagnostics", "(*DiagnosticBag).Add")
@@ -247,6 +247,9 @@ func c15R2(c *Ctx, r *Report) {
 						break
 					}
 				}
+				if !okSite && recordedAndReplayed(c, fn, info, call, stack, report.Obj, bagAdd.Obj) {
+					okSite = true
+				}
 				r.Check(okSite, rule, fn.Name(), fmt.Sprintf("AddDependency call #%d", n), c.pos(call.Pos()),
 					"the circular-import error returned here is not reported as a diagnostic (the cycle would be dropped silently)")
 				return true
@@ -266,6 +269,101 @@ func c15R2(c *Ctx, r *Report) {
 		return true
 	})
 	r.Check(okSev, rule, report.Name(), "Severity: Error", c.pos(report.Decl.Pos()), "ReportError must create an Error-severity diagnostic (exit status and code-generation gates count errors)")
+}
+
+// recordedAndReplayed: the AddDependency call is preceded, in its block, by a call recording the same
+// (importer, imported) pair; the recorder appends to a Pipeline field; a replay function ranges over a copy of
+// that field (or the field), reports through ReportError / DiagnosticBag.Add and is called by Run after wg.Wait()
+// in the condition of an if whose body returns a non-nil error.
+func recordedAndReplayed(c *Ctx, fn *Fn, info *types.Info, call *ast.CallExpr, stack []ast.Node, report, bagAdd *types.Func) bool {
+	if len(call.Args) != 2 {
+		return false
+	}
+	a0, a1 := exprStr(call.Args[0]), exprStr(call.Args[1])
+	var recorder *Fn
+	for i := len(stack) - 1; i >= 0 && recorder == nil; i-- {
+		blk, ok := stack[i].(*ast.BlockStmt)
+		if !ok {
+			continue
+		}
+		for _, st := range blk.List {
+			if st.Pos() >= call.Pos() {
+				break
+			}
+			for _, cl := range callsIn(st, false) {
+				if cl != call && len(cl.Args) >= 2 && exprStr(cl.Args[0]) == a0 && exprStr(cl.Args[1]) == a1 {
+					if rf := c.FnOf(callee(info, cl)); rf != nil && rf.Decl != nil && rf.Decl.Body != nil {
+						recorder = rf
+					}
+				}
+			}
+		}
+	}
+	if recorder == nil {
+		return false
+	}
+	// the field the recorder appends to
+	var store *types.Var
+	rinfo := recorder.Info()
+	ast.Inspect(recorder.Decl.Body, func(x ast.Node) bool {
+		if as, ok := x.(*ast.AssignStmt); ok && len(as.Lhs) == 1 && len(as.Rhs) == 1 {
+			if cl, ok := as.Rhs[0].(*ast.CallExpr); ok && exprStr(cl.Fun) == "append" {
+				if fv := fieldOf(rinfo, as.Lhs[0]); fv != nil {
+					store = fv
+				}
+			}
+		}
+		return true
+	})
+	if store == nil {
+		return false
+	}
+	run := c.LookupFn(pkgPipe, "(*Pipeline).Run")
+	if run == nil {
+		return false
+	}
+	for _, rf := range c.AllFns(pkgPipe) {
+		if rf.Obj == recorder.Obj {
+			continue
+		}
+		finfo := rf.Info()
+		reads, reports := false, false
+		ast.Inspect(rf.Decl.Body, func(x ast.Node) bool {
+			if e, ok := x.(ast.Expr); ok && fieldOf(finfo, e) == store {
+				reads = true
+			}
+			return true
+		})
+		reports = nodeCallsDeep(finfo, rf.Decl.Body, report) || nodeCallsDeep(finfo, rf.Decl.Body, bagAdd)
+		if !reads || !reports {
+			continue
+		}
+		// Run: `wg.Wait()` … `if p.replay() { return <non-nil> }`
+		runInfo := run.Info()
+		var waitPos token.Pos
+		for _, cl := range callsIn(run.Decl.Body, false) {
+			if f := callee(runInfo, cl); f != nil && f.Name() == "Wait" && f.Pkg() != nil && f.Pkg().Path() == "sync" {
+				waitPos = cl.Pos()
+			}
+		}
+		okRun := false
+		ast.Inspect(run.Decl.Body, func(x ast.Node) bool {
+			ifs, ok := x.(*ast.IfStmt)
+			if !ok || ifs.Pos() < waitPos || nodeCalls(runInfo, ifs.Cond, rf.Obj) == nil {
+				return true
+			}
+			for _, st := range ifs.Body.List {
+				if ret, ok := st.(*ast.ReturnStmt); ok && len(ret.Results) == 1 && exprStr(ret.Results[0]) != "nil" {
+					okRun = true
+				}
+			}
+			return true
+		})
+		if okRun && waitPos != token.NoPos {
+			return true
+		}
+	}
+	return false
 }
 
 func relOf(pkgPath string) string {
